@@ -491,8 +491,9 @@ impl<R: BufRead> TextReportReader<R> {
 
     fn read_extract(&mut self, regex: &Regex, name: &str) -> io::Result<Vec<String>> {
         let line = self.read_line()?;
+        // strip only the line terminator: other whitespace may be a part of the value
         Ok(regex
-            .captures(line.trim())
+            .captures(line.trim_end_matches(['\n', '\r']))
             .ok_or_else(|| {
                 Error::new(
                     ErrorKind::InvalidData,
@@ -575,7 +576,13 @@ impl<R: BufRead + Send + 'static> ReportReader for TextReportReader<R> {
             )
         })?;
         let base_dir = self.read_extract(&BASE_DIR_RE, "base dir")?.swap_remove(0);
-        let base_dir = Path::from(base_dir);
+        // the base dir is written in the escaped form, just like the paths in the groups
+        let base_dir = Path::from_escaped_string(&base_dir).map_err(|e| {
+            Error::new(
+                ErrorKind::InvalidData,
+                format!("Malformed header: Failed to parse base dir: {e}"),
+            )
+        })?;
 
         let stats = self.read_extract(&TOTAL_RE, "total file statistics")?;
         let total_file_size = Self::parse_file_len(stats.first(), "total file size")?;
